@@ -124,6 +124,10 @@ func Run(o Opts) (*Result, error) {
 	if ctx.Err() == context.DeadlineExceeded {
 		res.TimedOut = true
 	}
+	if dbg := os.Getenv("VERIF_TLC_DEBUG"); dbg != "" {
+		os.MkdirAll(dbg, 0o755)
+		os.WriteFile(filepath.Join(dbg, fmt.Sprintf("%s-%d.out", o.Module, time.Now().UnixNano())), []byte(res.Tail(400)), 0o644)
+	}
 	sc := bufio.NewScanner(strings.NewReader(res.Out))
 	sc.Buffer(make([]byte, 1<<20), 1<<30)
 	for sc.Scan() {
